@@ -40,6 +40,8 @@ def _structured():
       # under-resolved (only resolved pairs asserted)
       g(8, 9, 12, 6), g(8, 9, 10, 7, impl='fast'), g(6, 7, 16, 8, 'equiangular'),
       g(6, 7, 7, 9, 'equiangular_with_poles', impl='fast'),
+      # longitude node counts at the Nyquist limit of the top zonal wavenumber: nlon = 2(M-1), nlon = M
+      g(9, 10, 16, 10), g(9, 10, 16, 10, impl='fast'), g(6, 7, 10, 7, impl='fast', bsm=4), g(7, 8, 7, 8, impl='fast'),
       # offsets, radii
       g(8, 9, 25, 13, offset=0.3, radius=3.0), g(8, 9, 25, 13, offset=-2.0, radius=0.25, impl='fast'),
       g(12, 13, 36, 18, 'equiangular', offset=1.0, radius=6.371e6 / 1e5, impl='fast'),
